@@ -45,6 +45,13 @@ def gx(d): return d[0] * SCALE + OFFSET          # refers to module globals: __r
 def gy(d): return d[1] * SCALE
 def gb(d): return d[0] * SCALE > 0.5
 def gc(d): return d[2]
+# round 5: module globals of the defining module whose NAMES also exist in histogrammar.util (the rebuilt function must keep its own)
+relativeTolerance = 3.0
+absoluteTolerance = 0.25
+def hx(d): return d[0] * relativeTolerance + absoluteTolerance
+def hy(d): return d[1] * relativeTolerance
+def hb(d): return d[0] * relativeTolerance > 0.5
+def hc(d): return d[2]
 def mkidx(k):
     return lambda d, k=k: d[k]                    # one code object, different defaults (functions built by a factory / in a loop)
 def mkgt(t, k=0):
@@ -58,6 +65,7 @@ KINDS = {
     "lambda": ("qx", "qy", "qb", "qc", "lambda x, y, c: (x, y, c, 0.0)"),
     "def": ("fx", "fy", "fb", "fc", "lambda x, y, c: (x, y, c, 0.0)"),
     "globals": ("gx", "gy", "gb", "gc", "lambda x, y, c: (x, y, c, 0.0)"),
+    "globals-clash": ("hx", "hy", "hb", "hc", "lambda x, y, c: (x, y, c, 0.0)"),
     "factory": ("mkidx(0)", "mkidx(1)", "mkgt(0.5)", "mkidx(2)", "lambda x, y, c: (x, y, c, 0.0)"),
     "defaults": ("(lambda d, k=0: d[k])", "(lambda d, k=1: d[k])", "(lambda d, t=0.5: d[0] > t)", "(lambda d, k=2: d[k])", "lambda x, y, c: (x, y, c, 0.0)"),
     "named": ("nx", "ny", "nb", "nc", "lambda x, y, c: (x, y, c, 0.0)"),
